@@ -24,7 +24,8 @@ func init() {
 			"the blob digest algorithm at signing is table[keySpec.SignatureAlgorithm().Hash()] with a fail-closed miss (anchored at the signer's invocation of the generator; the argument is decided per origin, so the table may be applied next to the invocation or in a module helper); " +
 			"(e) the blob descriptor generator (function literal or bound method of an object filled with the inputs; made by a builder both wrappers call, by the wrappers themselves or through a constructor) is {given media type, digest and byte count of the given reader under the requested algorithm}, " +
 			"runs the same code for SignBlob and VerifyBlob and holds the same inputs (reader, ContentMediaType and UserMetadata exactly as given); " +
-			"every function that holds a generator evaluates it at most once on every path (it drains the caller's reader: counted callee-ward over the call tree, through closures, bound methods, objects holding it and interface hand-overs). " +
+			"every function that holds a generator evaluates it at most once on every path (it drains the caller's reader: counted callee-ward over the call tree, through closures, bound methods, objects holding it and interface hand-overs); " +
+			"(f) in the signing call tree (from notation.Sign / SignOCI / SignBlob and the implementations of Signer.Sign / BlobSigner.SignBlob, through module callees and function values) a value handed back by a fallible step is consumed only behind the nil-error edge of that step, or where no success-capable exit can follow (cut set: the nil-error edges removed, no path call -> consumption -> success exit). " +
 			"Values are decided per origin: through phis (single exit with a defaulted local), through module helpers (callee parameters = call arguments) and, for helpers that are handed less than the signer, at their closed list of call sites.",
 		NotCov:  "the sign->verify round trip itself for all keys and formats (cryptography and envelope encoders of notation-core-go).",
 		Trusted: []string{"go/types, go/ssa", "encoding/json", "notation-core-go signature (Sign, Verify, KeySpec)"},
@@ -39,6 +40,7 @@ func runC07(c *Ctx) {
 	c07Payload(c)
 	c07BlobDescriptor(c)
 	c07GeneratorOnce(c)
+	c07StepsSucceeded(c)
 	_ = w
 	c.MinCount("", 20, "agreement obligations")
 }
